@@ -1,5 +1,5 @@
 (* proofs/C18.v -- lemmas behind the C18 theorems: the linear flip-flop index. *)
-From V Require Import lib.Tree gen.Gen_functions model.C18.
+From V Require Import lib.Tree gen.Gen_functions gen.Gen_C18_kern model.C18.
 Open Scope list_scope.
 Open Scope Q_scope.
 
@@ -383,23 +383,24 @@ Qed.
 (* ------------------------------------------------------------------------------------ *)
 (* proportion exceeding                                                                   *)
 (* ------------------------------------------------------------------------------------ *)
-Lemma exceed_nan_iff x t : exceed x (XFin t) = XNaN <-> x = XNaN.
-Proof. unfold exceed. destruct x as [|q|s]; simpl; split; intro H; try reflexivity; try discriminate;
-  unfold b2x in H; match type of H with (if ?c then _ else _) = _ => destruct c end; discriminate. Qed.
-Lemma xge_add0 x t : xge x (xadd (XFin t) (xmul (XFin 0) (XFin (-1)))) = xge x (XFin t).
-Proof. change (xadd (XFin t) (xmul (XFin 0) (XFin (-1)))) with (XFin (t + 0 * -1)).
-  assert (E : XFin (t + 0 * -1) =x= XFin t) by (cbn [xeq]; ring).
-  unfold xge. rewrite E. reflexivity. Qed.
-
 Definition geb (t : Q) (x : xv) : bool := xge x (XFin t).
+Lemma xge_eq_r x a b : a =x= b -> xge x a = xge x b.
+Proof. intro E. unfold xge. rewrite E. reflexivity. Qed.
+(* the regenerated comparison is `>=` against the threshold itself (the tolerance term vanishes) *)
 Lemma exceed_valid x t : x <> XNaN -> exceed x (XFin t) = b2x (geb t x).
-Proof. intro H. unfold exceed. rewrite xge_add0. destruct x; [congruence | reflexivity | reflexivity]. Qed.
+Proof. intro H. unfold exceed, gen_c18_exceed. cbv zeta.
+  destruct x as [|q|s]; [congruence | |]; cbn [xnotnull xisnan negb andb xwhere]; f_equal; unfold geb; apply xge_eq_r; cbn [xadd xmul xeq]; ring. Qed.
+Lemma exceed_nan t : exceed XNaN (XFin t) = XNaN.
+Proof. reflexivity. Qed.
+Lemma exceed_nan_iff x t : exceed x (XFin t) = XNaN <-> x = XNaN.
+Proof. split; [|intros ->; apply exceed_nan]. intro H. destruct x as [|q|s]; [reflexivity | |];
+  rewrite exceed_valid in H by discriminate; unfold b2x in H; destruct (geb t _); discriminate. Qed.
 Lemma b2x_valid b : xvalid (b2x b) = true.
 Proof. destruct b; reflexivity. Qed.
 Lemma valids_exceed l t : valids (map (fun x => exceed x (XFin t)) l) = map (fun x => b2x (geb t x)) (valids l).
 Proof. induction l as [|a r IH]; [reflexivity|]. cbn [map]. unfold valids in *. cbn [filter].
   destruct a as [|q|s].
-  - change (exceed XNaN (XFin t)) with XNaN. cbn [xvalid xnotnull xisnan negb]. exact IH.
+  - rewrite exceed_nan. cbn [xvalid xnotnull xisnan negb]. exact IH.
   - rewrite exceed_valid by discriminate. rewrite b2x_valid. cbn [xvalid xnotnull xisnan negb map]. rewrite IH. reflexivity.
   - rewrite exceed_valid by discriminate. rewrite b2x_valid. cbn [xvalid xnotnull xisnan negb map]. rewrite IH. reflexivity.
 Qed.
